@@ -39,6 +39,7 @@ type harness struct {
 	fails    []failure // in case order
 	seenKey  map[string]int
 	cpuByFam map[string]int64
+	calib    *Case
 
 	ccMu     sync.Mutex
 	ccSeen   map[[32]byte]bool
@@ -178,16 +179,10 @@ func verdict(c *Case, res *Result, cr *Crash) (key, desc string) {
 		}
 	}
 	// "promptly": at most 10 s of CPU per 64 KiB of input (for the formatter:
-	// of input plus output, its output being legitimately larger than its input).
-	for _, st := range res.Stages {
-		n := int64(caseSize(c))
-		if st.Name == "fmt.render" {
-			n += res.RenderBytes
-		}
-		limit := int64(10000) * (1 + n/65536)
-		if st.CPUms > limit {
-			return "slow:" + st.Name, fmt.Sprintf("stage %s used %d ms of CPU for %d bytes of input/output (limit %d ms)", st.Name, st.CPUms, n, limit)
-		}
+	// of input plus output, its output being legitimately larger than its
+	// input). This only nominates the case; see confirm.go.
+	if st, ms, lim := slowStage(c, res, slowLimitMs); st != "" {
+		return "slow:" + st, fmt.Sprintf("stage %s used %d ms of CPU (limit %d ms)", st, ms, lim)
 	}
 	return "", ""
 }
@@ -275,7 +270,13 @@ func (h *harness) runBatch(cases []*Case) {
 			}
 		}
 		if key, desc := verdict(c, o.res, o.cr); key != "" {
-			h.fails = append(h.fails, failure{key, desc, c})
+			if strings.HasPrefix(key, "slow:") || strings.HasPrefix(key, "hang:") {
+				r.Count("suspect:" + key)
+				key, desc = h.confirm(c, key)
+			}
+			if key != "" {
+				h.fails = append(h.fails, failure{key, desc, c})
+			}
 		}
 	}
 }
@@ -354,6 +355,14 @@ func main() {
 			c.KeepC = i == 0
 			batch = append(batch, c)
 		}
+	}
+	for _, p := range pkgs {
+		if p.Name == "png" {
+			h.calib = p.asCase("calibration")
+		}
+	}
+	if h.calib == nil {
+		h.calib = pkgs[0].asCase("calibration")
 	}
 	nBaseline := len(batch)
 	h.runBatch(batch)
